@@ -1,9 +1,13 @@
 #!/bin/bash
-# run every property's self-validation in parallel; print only problems
+# run every property's self-validation (each one spreads its variants over the cores itself); print a summary line per property and any failure
 cd /verif
 props=${@:-C02 C04 C05 C06 C08 C09 C10 C11 C12 C13 C14 C16 C17 C18 C19 C20}
 for p in $props; do
   [ -f fsv/props/$p.py ] || continue
-  ( out=$(python3 -m fsv.selftest $p 2>&1); code=$?; k=$(echo "$out" | grep -c "^breaking *violation"); n=$(echo "$out" | grep -c "^breaking"); q=$(echo "$out" | grep -c "^preserving *clean"); m=$(echo "$out" | grep -c "^preserving"); echo "$p exit=$code killed=$k/$n preserved=$q/$m"; echo "$out" | grep -v "violation \|clean " | cut -c1-300 | head -5 ) &
+  out=$(python3 -m fsv.selftest $p 2>&1); code=$?
+  k=$(echo "$out" | grep -c "^breaking *violation"); n=$(echo "$out" | grep -c "^breaking")
+  q=$(echo "$out" | grep "^preserving" | grep -c "clean \|undecided "); m=$(echo "$out" | grep -c "^preserving")
+  s=$(echo "$out" | grep "^seeded" | grep -c "violation "); t=$(echo "$out" | grep -c "^seeded")
+  echo "$p exit=$code killed=$k/$n preserved=$q/$m seeded=$s/$t"
+  echo "$out" | grep "^ANALYSIS-ERROR" | cut -c1-300 | head -5
 done
-wait
